@@ -1,7 +1,7 @@
 (* C05 -- streaming: every proper prefix of an accepted header is reported incomplete.
    Statements only; proofs in Proofs/V1Prefix.v (v1), Proofs/AutoProps.v (v2, auto, flags). *)
 From PPP Require Import Base.Bytes Std.Utf8 Std.Text Model.V1 Model.V2 Model.Auto
-  Proofs.BytesFacts Proofs.V1Text Proofs.V1Final Proofs.V1Props Proofs.AutoProps Proofs.V1Prefix.
+  Proofs.BytesFacts Proofs.V1Text Proofs.V1Final Proofs.V1Props Proofs.AutoProps Proofs.V1Prefix Proofs.Stream.
 
 (* v1 lines in US-ASCII: byte form, text form and auto-detecting entry point *)
 Theorem C05_v1 : forall x hd k, p1 x = Ok hd -> ascii (text hd) = true -> k < lenN (text hd) ->
@@ -28,7 +28,19 @@ Theorem C05_flags :
   /\ (forall r, is_ok_a r = true -> is_incomplete_a r = false).
 Proof. exact flags_consistent. Qed.
 
+(* so a receiver that re-parses its growing buffer after each read (the loop of examples/server.rs,
+   [receive] in Proofs/Stream.v) ends with the same header as a one-shot parse, however the byte
+   stream is split into reads (empty reads included) *)
+Theorem C05_stream_v1 : forall x hd reads, p1 x = Ok hd -> ascii (text hd) = true -> concat reads = x ->
+  receive p1 is_incomplete1 [] reads = Some (Ok hd).
+Proof. exact receive_v1. Qed.
+Theorem C05_stream_v2 : forall x h reads, wf_bytes x = true -> p2 x = Ok h -> concat reads = x ->
+  receive p2 is_incomplete2 [] reads = Some (Ok h).
+Proof. exact receive_v2. Qed.
+
 Print Assumptions C05_v1.
+Print Assumptions C05_stream_v1.
+Print Assumptions C05_stream_v2.
 Print Assumptions C05_v2.
 Print Assumptions C05_v2_auto.
 Print Assumptions C05_flags.
